@@ -255,6 +255,7 @@ func genSession14(c *Chooser) Session {
 		// every deadline is already due when it is set
 		s.Clock = simos.ClockPolicy{Mode: "expired"}
 	}
+	s.Sched = c.U64()
 	if false {
 		env := [][2]string{{"GITHUB_ACTIONS", "true"}, {"GITHUB_ACTIONS", "true"}, {"USER", "root"}, {"TMPDIR", "/nonexistent"}, {"PWD", "/work"}, {"JD_DEBUG", "1"}, {"NO_COLOR", "1"}, {"TERM", "xterm-256color"}, {"TERM", "dumb"}, {"JD_COLOR", "1"}, {"JD_FORMAT", "patch"}, {"JD_OPTS", "-set"}, {"LANG", "C"}, {"LC_ALL", "tr_TR.UTF-8"}, {"HOME", "/root"}, {"DEBUG", "1"}, {"CI", "true"}, {"CLICOLOR_FORCE", "1"}, {"GITHUB_OUTPUT", "gh-out"}}
 		for i := 0; i < c.Range(1, 3); i++ {
